@@ -179,7 +179,72 @@ ADV_INDICES = {
     '[[1,0],1:]': lambda: ([1, 0], slice(1, None)),
     '[:,[0,2]]': lambda: (slice(None), [0, 2]),
     '[[0,1],[2,0]]': lambda: ([0, 1], [2, 0]),
+    # advanced indices SEPARATED by a slice / Ellipsis: NumPy puts the index axes first
+    '[0,:,[0,1]]': lambda: (0, slice(None), [0, 1]),
+    '[[0,1],:,[1,0]]': lambda: ([0, 1], slice(None), [1, 0]),
+    '[[0,1],...,1]': lambda: ([0, 1], Ellipsis, 1),
+    '[1,:,mask]': lambda: (1, slice(None), np.array([True, False])),
+    '[[1,0],1:,[0]]': lambda: ([1, 0], slice(1, None), [0]),
 }
+SEPARATED = ('[0,:,[0,1]]', '[[0,1],:,[1,0]]', '[[0,1],...,1]', '[1,:,mask]', '[[1,0],1:,[0]]')
+
+
+REJECTED = {
+    # (shape of x, index, shape of the right-hand side): NumPy raises for a[index] = rhs on every coefficient slice
+    'x(3,)[:] = (2,3)': ((3,), (slice(None),), (2, 3)),
+    'x(3,)[0] = (2,)': ((3,), (0,), (2,)),
+    'x(2,3)[0] = (2,3)': ((2, 3), (0,), (2, 3)),
+    'x(3,)[[0,2]] = (2,2)': ((3,), ([0, 2],), (2, 2)),
+    'x(2,3)[:,0] = (3,)': ((2, 3), (slice(None), 0), (3,)),
+}
+
+
+def h_setitem_rejected(ctx, case, rhs, D, P):
+    """a right-hand side that NumPy cannot broadcast INTO the selection is rejected (ValueError) --
+    whatever the number of directions is (a leading axis of the right-hand side must never be
+    matched against the direction axis) -- and the target is left unchanged"""
+    algopy = symx.load_algopy()
+    shape, idx, rshape = REJECTED[case]
+    ok = True
+    try:
+        np.zeros(shape)[idx if len(idx) > 1 else idx[0]] = np.zeros(rshape)
+        ok = False
+    except ValueError:
+        pass
+    assert ok, 'harness: NumPy accepts this assignment'
+    X = V(ctx, 'x', (D, P) + tuple(shape))
+    x = mk_utpm(ctx, algopy, X)
+    if rhs == 'utpm':
+        r = mk_utpm(ctx, algopy, V(ctx, 'w', (D, P) + tuple(rshape)))
+    else:
+        r = mk_array(ctx, V(ctx, 'c', tuple(rshape)))
+    try:
+        x[idx if len(idx) > 1 else idx[0]] = r
+        ctx.fact(False, '%s with a %s right-hand side and P = %d is accepted (NumPy raises ValueError)' % (case, rhs, P))
+    except ValueError:
+        ctx.fact(True, 'rejected')
+    ctx.eq(plain(x.data), X, 'target unchanged by the rejected assignment')
+
+
+def h_sum_axis_rejected(ctx, shape, axis, D, P):
+    """an axis outside the shape of the polynomial array is rejected as NumPy rejects it on every
+    coefficient slice: it never reaches the direction or the coefficient axis"""
+    algopy = symx.load_algopy()
+    shape = tuple(shape)
+    try:
+        np.sum(np.zeros(shape), axis=axis)
+        raise AssertionError('harness: NumPy accepts this axis')
+    except (ValueError, IndexError):
+        pass
+    X = V(ctx, 'x', (D, P) + shape)
+    x = mk_utpm(ctx, algopy, X)
+    for label, call in (('algopy.sum', lambda: algopy.sum(x, axis=axis)), ('x.sum', lambda: x.sum(axis=axis))):
+        try:
+            y = call()
+            ctx.fact(False, '%s(x%s, axis=%s) is accepted (result shape %s), NumPy raises' % (label, shape, axis, np.shape(plain(y.data))[2:]))
+        except (ValueError, IndexError):
+            ctx.fact(True, 'rejected')
+    ctx.eq(plain(x.data), X, 'operand unchanged')
 
 
 def h_setitem_advanced(ctx, shape, iname, D, P, rhs):
@@ -522,9 +587,13 @@ def units(tier, seed):
                 add('setitem/%s/%s/batch%d' % (shp, rhs, b // 25), 'h_setitem', shape=shp, indices=batch, D=D, P=P, rhs=rhs)
     # advanced indices (integer lists / arrays, boolean masks, mixed with slices): access and assignment
     for iname in ADV_INDICES:
-        shp = (3,) if iname in ('[[0,2]]', '[array([2,0])]', '[mask]') else (2, 3)
+        shp = (3,) if iname in ('[[0,2]]', '[array([2,0])]', '[mask]') else ((2, 3, 2) if iname in SEPARATED else (2, 3))
         for rhs in ('utpm', 'ndarray', 'scalar'):
             add('advanced index %s/%s/%s/D2,P2' % (iname, shp, rhs), 'h_setitem_advanced', shape=shp, iname=iname, D=2, P=2, rhs=rhs)
+    for case in REJECTED:
+        for rhs in ('utpm', 'ndarray'):
+            for P_ in (1, 2, 3):
+                add('setitem rejected like NumPy/%s/%s/P%d' % (case, rhs, P_), 'h_setitem_rejected', case=case, rhs=rhs, D=2, P=P_)
     add('advanced index [[0,2]]/(3,)/ndarray/D2,P3', 'h_setitem_advanced', shape=(3,), iname='[[0,2]]', D=2, P=3, rhs='ndarray')
     D, P = (2, 2) if tier == 'quick' else (3, 2)
     for shp, new in [((2, 3), (3, 2)), ((2, 3), (6,)), ((6,), (2, 3)), ((2, 2, 3), (4, 3)), ((2, 3), (-1,)), ((4,), (2, -1))]:
@@ -545,6 +614,10 @@ def units(tier, seed):
         add('neg/%s' % (shp,), 'h_shapeop', op='neg', shape=shp, D=D, P=P)
         add('zeros_like/%s' % (shp,), 'h_shapeop', op='zeros_like', shape=shp, D=D, P=P)
         add('ones_like/%s' % (shp,), 'h_shapeop', op='ones_like', shape=shp, D=D, P=P)
+    for shp, ax in [((3,), -2), ((3,), -3), ((3,), 1), ((2, 3), -3), ((2, 3), -4), ((2, 3), 2), ((), 1), ((2, 3), (0, 0))]:
+        add('sum rejects an axis out of range like NumPy/%s/axis=%s' % (shp, ax), 'h_sum_axis_rejected', shape=shp, axis=ax, D=2, P=2)
+    for shp, ax in [((2, 3), (0, 1)), ((2, 3, 2), (0, 2)), ((2, 3, 2), (-1, 0)), ((2, 3), (1,))]:
+        add('sum/%s/axis=%s' % (shp, ax), 'h_shapeop', op='sum', shape=shp, D=D, P=P, arg=ax)
     for shp, reps in [((2,), 2), ((2,), (2, 2)), ((2, 3), 2), ((2, 3), (2, 1)), ((2, 2), (1, 2, 1)), ((3,), 1)]:
         add('tile/%s/reps=%s' % (shp, reps), 'h_shapeop', op='tile', shape=shp, D=D, P=P, arg=reps)
     for shp in [(3,), (3, 3), (2, 3)]:
